@@ -7,6 +7,13 @@ from .common import declare_factor, make_factor, factor_spec_params, spec_eval_l
 
 PROP = "C01"
 
+BOUNDS = {
+    "quick": "every factor kind (general, rank-one, linear, constant, measure, density) x {multiply, *, hadamard, product} x update_full x cached / uncached covariance; D in {1,2}; (R1,R2) in {(1,1),(2,1),(1,2),(2,3)}; N=1 evaluation point; fully symbolic; operand fields compared before / after",
+    "thorough": "adds D=3, (R1,R2)=(3,2), hadamard broadcasts in both directions",
+}
+ASSUMPTIONS = ["positive SEMI-definite precisions appear through the rank-one / linear / constant kinds (Lambda = g v v', 0); general factors and measures are positive definite (Cholesky parametrisation)"]
+
+
 
 def _case(ukind, fkind, entry, update_full, warm, D, R1, R2, N, timeout=240):
     cid = f"C01/{entry}/{ukind}x{fkind}/uf{int(update_full)}/warm{int(warm)}/D{D}R{R1}x{R2}N{N}"
